@@ -96,7 +96,7 @@ def compare(yastn, v, w, fusion_differs):
         return f"dense shapes {da.shape} vs {db.shape}", zero_diff
     if np.array_equal(da, db):
         return None, zero_diff
-    if not tprog._is_int_valued(da) and np.allclose(da, db, rtol=1e-9, atol=1e-9 * max(1.0, float(np.max(np.abs(da))) if da.size else 1.0)):
+    if (not tprog._is_int_valued(da) or not tprog._is_int_valued(db)) and np.allclose(da, db, rtol=1e-9, atol=1e-9 * max(1.0, float(np.max(np.abs(da))) if da.size else 1.0)):
         return None, zero_diff
     return "dense values differ", zero_diff
 
@@ -167,6 +167,63 @@ def run(ctx):
                              f"step {k} ({st.opname}): result under {pol}/{fus} differs from the result under {sh['name']}: {why}",
                              case={"program": progdesc, "step": k, "other": sh["name"]}, concrete=True)
     run_unroll(ctx)
+    run_slicing(ctx)
+
+
+def run_slicing(ctx):
+    """slice_leg_uniform vs the Lean model (whose partition properties are theorems) + direct partition oracle"""
+    import yastn
+    from yastn.tensor.oe_blocksparse import slice_leg_uniform
+    rng = ctx.rng
+    cases, reals = [], []
+    cfg = tgen.make_cfg("U1")
+    for _ in range(150 if ctx.quick else 3000):
+        ns = rng.randint(1, 5)
+        Ds = [rng.randint(1, 7) for _ in range(ns)]
+        size = rng.randint(1, 9)
+        leg = yastn.Leg(cfg, s=rng.choice([1, -1]), t=list(range(ns)), D=Ds)
+        try:
+            sl = slice_leg_uniform(leg, size)
+        except Exception as e:  # noqa: BLE001
+            ctx.fail("oracle", "c14:slice:raises", f"slice_leg_uniform(D={Ds}, size={size}) raises {type(e).__name__}: {e}", case={"Ds": Ds, "size": size}, concrete=True)
+            continue
+        real = []
+        for s_ in sl:
+            piece = []
+            for t, D in zip(s_.t, s_.D):
+                r = s_.slices.get(t, slice(None))
+                start = 0 if r.start is None else r.start
+                stop = leg[t] if r.stop is None else r.stop
+                piece.append([t[0], start, stop])
+                if stop - start != D:
+                    ctx.fail("oracle", "c14:slice:dim", f"slice of sector {t} has D={D} but range [{start},{stop})", case={"Ds": Ds, "size": size}, concrete=True)
+            real.append(piece)
+        # direct oracle: the pieces cover every position of every sector exactly once, sizes <= size, all but the last == size
+        cover = {}
+        for piece in real:
+            tot = sum(e - b for _, b, e in piece)
+            if tot == 0 or tot > size:
+                ctx.fail("oracle", "c14:slice:size", f"a slice holds {tot} positions (size={size}, D={Ds})", case={"Ds": Ds, "size": size}, concrete=True)
+            for t, b, e in piece:
+                for q in range(b, e):
+                    cover[(t, q)] = cover.get((t, q), 0) + 1
+        want = {(t, q) for t, D in enumerate(Ds) for q in range(D)}
+        if set(cover) != want or any(v != 1 for v in cover.values()):
+            ctx.fail("oracle", "c14:slice:partition", f"slice_leg_uniform(D={Ds}, size={size}) is not a partition of the leg", case={"Ds": Ds, "size": size}, concrete=True)
+        if any(sum(e - b for _, b, e in piece) != size for piece in real[:-1]):
+            ctx.fail("oracle", "c14:slice:full", f"a slice other than the last is not full (D={Ds}, size={size})", case={"Ds": Ds, "size": size}, concrete=True)
+        cases.append([Ds, size]); reals.append(real)
+        ctx.case({"kind": "slice_leg_uniform", "Ds": Ds, "size": size}, nontrivial=len(Ds) >= 2)
+        ctx.count("slice-compared")
+    if ctx.drv is not None and cases:
+        mod = ctx.drv.call({"op": "slice_uniform", "cases": cases})
+        if not mod.get("ok"):
+            ctx.fail("correspondence", "c14:slice:model-error", f"model error {mod.get('err')}")
+            return
+        for c, r, m in zip(cases, reals, mod["res"]):
+            if r != m:
+                ctx.fail("correspondence", "c14:slice:model", f"slice_leg_uniform(D={c[0]}, size={c[1]}): real {r} != model {m}", case={"Ds": c[0], "size": c[1]})
+                break
 
 
 def run_unroll(ctx):
